@@ -177,8 +177,8 @@ pub fn adc_n(lhs: &mut [u64], rhs: &[u64], carry: u64) -> /*+*/(r:/*-*/ u64/*+*/
             lemma_lvr_push(rhs@, 0, i as int);
             assert(bp(i as int + 1) == B * w);
             let a = old(lhs)@[i as int] as int; let b = rhs@[i as int] as int;
-            assert(w * t0_0 as int + t0_1 as int * (B * w) == w * a + w * b + c0 as int * w) by(nonlinear_arith)
-                requires t0_0 as int + t0_1 as int * B == a + b + c0 as int;
+            assert(w * lhs@[i as int] as int + carry as int * (B * w) == w * a + w * b + c0 as int * w) by(nonlinear_arith)
+                requires lhs@[i as int] as int + carry as int * B == a + b + c0 as int;
         }/*-*/
     }
     carry
@@ -213,8 +213,8 @@ pub fn sbb_n(lhs: &mut [u64], rhs: &[u64], borrow: u64) -> /*+*/(r:/*-*/ u64/*+*
             lemma_lvr_push(rhs@, 0, i as int);
             assert(bp(i as int + 1) == B * w);
             let a = old(lhs)@[i as int] as int; let b = rhs@[i as int] as int;
-            assert(w * t0_0 as int - t0_1 as int * (B * w) == w * a - w * b - c0 as int * w) by(nonlinear_arith)
-                requires t0_0 as int - t0_1 as int * B == a - b - c0 as int;
+            assert(w * lhs@[i as int] as int - borrow as int * (B * w) == w * a - w * b - c0 as int * w) by(nonlinear_arith)
+                requires lhs@[i as int] as int - borrow as int * B == a - b - c0 as int;
         }/*-*/
     }
     borrow
@@ -223,7 +223,9 @@ pub fn sbb_n(lhs: &mut [u64], rhs: &[u64], borrow: u64) -> /*+*/(r:/*-*/ u64/*+*
 
 //@ extract src/algorithms/mul.rs fn mac
 pub fn mac(lhs: &mut u64, a: u64, b: u64, c: u64) -> /*+*/(r:/*-*/ u64/*+*/)
-    ensures *final(lhs) as int + (r as int) * B == a as int * b as int + c as int + *old(lhs) as int/*-*/
+    ensures *final(lhs) as int + (r as int) * B == a as int * b as int + c as int + *old(lhs) as int,
+        *final(lhs) as int == (a as int * b as int + c as int + *old(lhs) as int) % B,
+        r as int == (a as int * b as int + c as int + *old(lhs) as int) / B,/*-*/
 {
     let prod = u128::muladd2(a, b, c, *lhs);
     *lhs = prod.low();
@@ -316,8 +318,8 @@ pub fn addmul_nx1(lhs: &mut [u64], a: &[u64], b: u64) -> /*+*/(r:/*-*/ u64/*+*/)
             lemma_lvr_push(a@, 0, i as int);
             assert(bp(i as int + 1) == B * w);
             let ai = a@[i as int] as int; let li = old(lhs)@[i as int] as int;
-            assert(w * t0_0 as int + t0_1 as int * (B * w) == (w * ai) * b as int + c0 as int * w + w * li) by(nonlinear_arith)
-                requires t0_0 as int + t0_1 as int * B == ai * b as int + c0 as int + li;
+            assert(w * lhs@[i as int] as int + carry as int * (B * w) == (w * ai) * b as int + c0 as int * w + w * li) by(nonlinear_arith)
+                requires lhs@[i as int] as int + carry as int * B == ai * b as int + c0 as int + li;
             assert((lvr(a@, 0, i as int) + w * ai) * b as int == lvr(a@, 0, i as int) * b as int + (w * ai) * b as int) by(nonlinear_arith);
         }/*-*/
     }
@@ -363,11 +365,11 @@ pub fn submul_nx1(lhs: &mut [u64], a: &[u64], b: u64) -> /*+*/(r:/*-*/ u64/*+*/)
             let ai = a@[i as int] as int; let li = old(lhs)@[i as int] as int;
             // carry' = floor((ai*b + c0)/B) <= B-2
             lemma_mul_u64_bound(a@[i as int], b);
-            assert(t0_1 as int <= B - 2) by(nonlinear_arith)
-                requires t0_0 as int + t0_1 as int * B == ai * b as int + c0 as int, ai * b as int <= (B - 1) * (B - 1), 0 <= c0 as int <= B - 2, t0_0 as int >= 0;
-            assert(w * t1_0 as int - (t1_1 as int + t0_1 as int) * (B * w) == w * li - (w * ai) * b as int - (b0 as int + c0 as int) * w) by(nonlinear_arith)
-                requires t0_0 as int + t0_1 as int * B == ai * b as int + c0 as int,
-                    t1_0 as int - t1_1 as int * B == li - t0_0 as int - b0 as int;
+            assert(carry as int <= B - 2) by(nonlinear_arith)
+                requires limb as int + carry as int * B == ai * b as int + c0 as int, ai * b as int <= (B - 1) * (B - 1), 0 <= c0 as int <= B - 2, limb as int >= 0;
+            assert(w * lhs@[i as int] as int - (borrow as int + carry as int) * (B * w) == w * li - (w * ai) * b as int - (b0 as int + c0 as int) * w) by(nonlinear_arith)
+                requires limb as int + carry as int * B == ai * b as int + c0 as int,
+                    lhs@[i as int] as int - borrow as int * B == li - limb as int - b0 as int;
             assert((lvr(a@, 0, i as int) + w * ai) * b as int == lvr(a@, 0, i as int) * b as int + (w * ai) * b as int) by(nonlinear_arith);
         }/*-*/
     }
